@@ -61,3 +61,69 @@ Definition read_fenced (lines : list str) : option (fenced * list str) :=
       end
   | [] => None
   end.
+
+(* ---- ATX heading (CommonMark 0.31 section 4.2) ----
+   Up to three spaces, one to six '#', then the end of the line or a space or tab.  The content is the
+   rest of the line trimmed of spaces and tabs, minus an optional closing sequence: a run of '#' that
+   makes up all of the content or is preceded by a space or tab. *)
+Definition strip_closing (c : str) : str :=
+  let r := rev c in
+  let n := run_len 35 r in
+  match n with
+  | O => c
+  | _ => match skipn n r with
+         | [] => []
+         | x :: _ => if is_sptab x then trim (rev (skipn n r)) else c
+         end
+  end.
+
+Definition read_atx (l : str) : option (nat * str) :=
+  let k := run_len 32 l in
+  if Nat.ltb 3 k then None else
+  let t := skipn k l in
+  let n := run_len 35 t in
+  if Nat.ltb n 1 || Nat.ltb 6 n then None else
+  match skipn n t with
+  | [] => Some (n, [])
+  | x :: _ => if is_sptab x then Some (n, strip_closing (trim (skipn n t))) else None
+  end.
+
+(* ---- ordered list marker (CommonMark 0.31 section 5.2) ----
+   One to nine ASCII digits, '.' or ')', then a space: the start number and the width of the marker
+   (which is the column at which the item's content, and every continuation line, begins). *)
+Fixpoint digits_of (s : str) : str :=
+  match s with c :: r => if is_ascii_digit c then c :: digits_of r else [] | [] => [] end.
+Fixpoint parse_dec (s : str) (acc : N) : N :=
+  match s with [] => acc | c :: r => parse_dec r (acc * 10 + (c - 48)) end.
+Definition read_ol_marker (l : str) : option (N * nat) :=
+  let ds := digits_of l in
+  let n := length ds in
+  if Nat.eqb n 0 || Nat.ltb 9 n then None else
+  match skipn n l with
+  | c :: 32 :: _ => if (c =? 46) || (c =? 41) then Some (parse_dec ds 0, (n + 2)%nat) else None
+  | _ => None
+  end.
+
+(* ---- GFM table rows (GFM spec 4.10) ----
+   A row is split into cells at every pipe that is not preceded by a backslash; in the cell content a
+   backslash-pipe stands for a pipe; cells are trimmed; the pipes at both ends of the row are optional
+   (the renderer always writes them).  In the delimiter row a leading / trailing colon gives the
+   column's alignment. *)
+Fixpoint split_cells (s : str) (cur : str) : list str :=
+  match s with
+  | [] => [rev cur]
+  | c :: r =>
+      if c =? 92 then
+        match r with
+        | 124 :: r' => split_cells r' (124 :: cur)
+        | _ => split_cells r (92 :: cur)
+        end
+      else if c =? 124 then rev cur :: split_cells r []
+      else split_cells r (c :: cur)
+  end.
+Definition read_row (l : str) : option (list str) :=
+  match l with
+  | 124 :: r => Some (map trim (removelast (split_cells r [])))
+  | _ => None
+  end.
+Definition alignment (d : str) : bool * bool := (startswith d [58], endswith d [58]).
